@@ -14,7 +14,7 @@ import time
 
 VERIF = os.path.dirname(os.path.dirname(os.path.abspath(__file__)))
 REPO = os.environ.get("VERIF_REPO", "/repo")
-WORK = os.path.join(VERIF, ".work")
+WORK = os.environ.get("VERIF_WORK") or os.path.join(VERIF, ".work")
 SPEC = os.path.join(VERIF, "spec")
 EVID = os.path.join(VERIF, "evidence")
 HARNESS = os.path.join(VERIF, "harness")
